@@ -302,6 +302,8 @@ impl LightClientProtocol {
             );
             return Err(StatusCode::InvalidChainRoot.with_context(errmsg));
         }
+        // Check Total Difficulty
+        check_total_difficulty_overflow(verifiable_header)?;
         Ok(())
     }
 
@@ -417,6 +419,30 @@ impl LightClientProtocol {
             .update_prove_state(peer_index, new_prove_state)?;
         Ok(true)
     }
+}
+
+/// The total difficulty of a verifiable header is the total difficulty in its parent chain root
+/// plus its own block difficulty; both are provided by the peer, so the sum could overflow.
+pub(crate) fn check_total_difficulty_overflow(
+    verifiable_header: &VerifiableHeader,
+) -> Result<(), Status> {
+    let parent_total_difficulty: U256 = verifiable_header
+        .parent_chain_root()
+        .total_difficulty()
+        .unpack();
+    let header = verifiable_header.header();
+    if parent_total_difficulty
+        .checked_add(&header.difficulty())
+        .is_none()
+    {
+        let errmsg = format!(
+            "total difficulty is overflow for block#{}, hash: {:#x}",
+            header.number(),
+            header.hash()
+        );
+        return Err(StatusCode::InvalidTotalDifficulty.with_context(errmsg));
+    }
+    Ok(())
 }
 
 impl LightClientProtocol {
